@@ -517,7 +517,8 @@ argument_list
     |   argument_list ',' new_arg
         {
             $$ = $1;
-            $$.num_arg++;
+            if ($$.num_arg < max_num_locals) /* an argument refused by add_local_name() ("Too many local variables") has no slot */
+                $$.num_arg++;
             $$.flags |= $3;
         }
     ;
